@@ -12,6 +12,21 @@ from .c01 import each, _single_return
 from .c08 import write_effects
 
 FLOOR = 40
+ANCHORS = [
+    'plotting.mpl_field.MplField.__init__',
+    'plotting.mpl_field.MplField.__call__',
+    'plotting.mpl_field.MplField.scalar',
+    'plotting.mpl_field.MplField.lightness',
+    'plotting.mpl_field.MplField.vector',
+    'plotting.mpl_field.MplField.contour',
+    'plotting.mpl_field.MplField._setup_multiplier',
+    'plotting.mpl_field.MplField._filter_values',
+    'plotting.mpl_field.MplField._axis_labels',
+    'plotting.mpl_field.MplField._extent',
+    'plotting.util.inplane_angle',
+    'plotting.util.normalise_to_range',
+    'plotting.util.hls2rgb',
+]   # functions whose code the property is anchored in (mutation analysis, evidence)
 MPL = "plotting.mpl_field.MplField"
 PU = "plotting.util."
 METHODS = ["__call__", "scalar", "lightness", "vector", "contour", "_filter_values", "_extent", "_axis_labels",
